@@ -47,8 +47,19 @@ def main():
     try:
         mod, checks = run_prop(a.prop, a.tier, a.config, a.repo, a.tag, a.only)
         extra = {}
+        if a.tier == "thorough":
+            import witness
+
+            wprops = ("C03", "C04", "C06", "C08", "C10", "C13", "C16", "C20")
+            if a.prop in wprops and checks:
+                res = witness.run_witnesses(a.repo)
+                n = witness.record(checks[0], None, res)
+                extra["witnesses"] = {k: v for k, v in res.items() if k.startswith(a.prop)} if "error" not in res else res
+            import selftest
+
+            extra["self_test"] = selftest.run(a.prop, checks[0] if checks else None)
         if a.tier == "thorough" and hasattr(mod, "thorough"):
-            extra = mod.thorough(checks) or {}
+            extra.update(mod.thorough(checks) or {})
         if hasattr(mod, "coverage_extra"):
             extra.update(mod.coverage_extra(checks))
     except SystemExit as e:
